@@ -8,6 +8,7 @@ import Fca.Model.Context
 import Fca.Spec.Galois
 import Fca.Lemmas.AllI
 import Fca.Lemmas.Names
+import Fca.Gen.Equiv
 namespace Fca.C01
 open Fca
 
@@ -297,5 +298,87 @@ example : exK.table.WF ∧ InRange [2, 0] exK.nAttributes ∧ BaseInRange (some 
   refine ⟨by decide, ?_, ?_, by decide⟩
   · intro x hx; simp at hx; rcases hx with rfl | rfl <;> decide
   · intro bs h; cases h; intro x hx; simp at hx; rcases hx with rfl | rfl <;> decide
+
+end Fca.C01
+
+/-! ### the flag vectors behind the derivation operators, for the definitions GENERATED from the Python source
+
+  `extension_i` / `intention_i` filter a base by the flag vector `all(axis=1 / 0)`; for the lists backend these flag
+  vectors are computed by `BinTableLists._all_per_row / _all_per_column / _any_per_row / _any_per_column`.
+  `Fca.Gen.Lists.*` is the translation of their current Python source (`harness/py2lean.py`), proved equal to the model
+  in `Fca/Gen/Equiv.lean`; here: each flag is exactly the quantifier over the incidence relation. -/
+namespace Fca.C01
+open Fca
+
+section
+variable (t : Table) (hwf : t.WF) (rows cols : Option (List Nat))
+  (hr : BaseInRange rows t.height) (hc : BaseInRange cols t.width)
+include hwf hr hc
+
+/-- object `i` of the selection gets the flag "has every selected attribute" -/
+theorem gen_lists_all_per_row_exact : Gen.Lists.allPerRow t rows cols
+    = .ok ((rows.getD (List.range t.height)).map fun i => (cols.getD (List.range t.width)).all fun j => t.get i j) := by
+  have e : L.allPerRow t rows cols = L.allPerRow t (some (rows.getD (List.range t.height))) cols := by cases rows <;> rfl
+  rw [Gen.Lists.allPerRow_eq_model t hwf rows cols hr hc, e, L.allPerRow_eq t hwf _ (Gen.Lists.getD_lt hr)]
+
+/-- attribute `j` of the selection gets the flag "shared by every selected object" -/
+theorem gen_lists_all_per_column_exact : Gen.Lists.allPerColumn t rows cols
+    = .ok ((cols.getD (List.range t.width)).map fun j => (rows.getD (List.range t.height)).all fun i => t.get i j) := by
+  have e : L.allPerColumn t rows cols = L.allPerColumn t (some (rows.getD (List.range t.height))) cols := by
+    cases rows <;> rfl
+  rw [Gen.Lists.allPerColumn_eq_model t hwf rows cols hr hc, e, L.allPerColumn_eq]
+
+theorem gen_lists_any_per_row_exact : Gen.Lists.anyPerRow t rows cols
+    = .ok ((rows.getD (List.range t.height)).map fun i => (cols.getD (List.range t.width)).any fun j => t.get i j) := by
+  have e : L.anyPerRow t rows cols = L.anyPerRow t (some (rows.getD (List.range t.height))) cols := by cases rows <;> rfl
+  rw [Gen.Lists.anyPerRow_eq_model t hwf rows cols hr hc, e, L.anyPerRow_eq t hwf _ (Gen.Lists.getD_lt hr)]
+
+theorem gen_lists_any_per_column_exact : Gen.Lists.anyPerColumn t rows cols
+    = .ok ((cols.getD (List.range t.width)).map fun j => (rows.getD (List.range t.height)).any fun i => t.get i j) := by
+  have e : L.anyPerColumn t rows cols = L.anyPerColumn t (some (rows.getD (List.range t.height))) cols := by
+    cases rows <;> rfl
+  rw [Gen.Lists.anyPerColumn_eq_model t hwf rows cols hr hc, e, L.anyPerColumn_eq]
+
+end
+
+/-! the derivation operators themselves: `AbstractBinTable.all_i / any_i` as run by a `BinTableLists` (generated from
+    the Python source with `axis` specialised to `1` / `0`) return exactly the prime sets, in the order of the base -/
+
+/-- `data.all_i(1, base, B)` — what `extension_i(B, base)` returns for a non-empty `B` — is the extent `B′` within the base -/
+theorem gen_lists_all_i_axis1_is_extension (t : Table) (hwf : t.WF) (B : List Nat) (base : Option (List Nat))
+    (hB : InRange B t.width) (hbase : BaseInRange base t.height) :
+    Gen.Lists.allI1 t base (some B) = .ok (Spec.ext t B (base.getD (List.range t.height))) := by
+  have hB' : BaseInRange (some B) t.width := by intro cs h; cases h; exact hB
+  rw [Gen.Lists.allI1_eq_model t hwf base (some B) hbase hB']
+  exact congrArg Except.ok (allI_axis1 t hwf .lists base (some B) hbase hB')
+
+/-- `data.all_i(0, A, base)` — what `intention_i(A, base)` returns for a non-empty `A` — is the intent `A′` within the base -/
+theorem gen_lists_all_i_axis0_is_intention (t : Table) (hwf : t.WF) (A : List Nat) (base : Option (List Nat))
+    (hA : InRange A t.height) (hbase : BaseInRange base t.width) :
+    Gen.Lists.allI0 t (some A) base = .ok (Spec.int t A (base.getD (List.range t.width))) := by
+  have hA' : BaseInRange (some A) t.height := by intro rs h; cases h; exact hA
+  rw [Gen.Lists.allI0_eq_model t hwf (some A) base hA' hbase]
+  exact congrArg Except.ok (allI_axis0 t hwf .lists A base hA hbase)
+
+/-- `data.any_i(1, base, B)` — the monotone extension away from its `len()` shortcut -/
+theorem gen_lists_any_i_axis1_is_extension_monotone (t : Table) (hwf : t.WF) (B : List Nat) (base : Option (List Nat))
+    (hB : InRange B t.width) (hbase : BaseInRange base t.height) :
+    Gen.Lists.anyI1 t base (some B) = .ok (Spec.extMono t B (base.getD (List.range t.height))) := by
+  have hB' : BaseInRange (some B) t.width := by intro cs h; cases h; exact hB
+  rw [Gen.Lists.anyI1_eq_model t hwf base (some B) hbase hB']
+  exact congrArg Except.ok (anyI_axis1 t hwf .lists base (some B) hbase hB')
+
+/-- `data.any_i(0, A, base)`: attributes of the base that some object of `A` has (the building block of
+    `intention_monotone_i`, which calls it on the complement of its argument) -/
+theorem gen_lists_any_i_axis0_exact (t : Table) (hwf : t.WF) (A : List Nat) (base : Option (List Nat))
+    (hA : InRange A t.height) (hbase : BaseInRange base t.width) :
+    Gen.Lists.anyI0 t (some A) base
+      = .ok ((base.getD (List.range t.width)).filter fun c => A.any fun i => t.get i c) := by
+  have hA' : BaseInRange (some A) t.height := by intro rs h; cases h; exact hA
+  rw [Gen.Lists.anyI0_eq_model t hwf (some A) base hA' hbase]
+  exact congrArg Except.ok (anyI_axis0 t hwf .lists A base hA hbase)
+
+/-- non-vacuity, and the generated definition computes: -/
+example : Gen.Lists.allI1 ⟨[[true, false, true], [true, true, false]], 3⟩ (some [1, 0]) (some [2, 0]) = .ok [0] := by rfl
 
 end Fca.C01
